@@ -54,7 +54,7 @@ using geo::V3;
 // Open finding: see notes/C11.md.  When false the class is judged like any
 // other input.
 constexpr bool kCentreFindingOpen = true;
-char const* const kCentreKey = "F13-safety-inf-at-sphere-centre";
+char const* const kCentreKey = "F33-safety-inf-at-sphere-centre";
 
 struct Prng
 {
